@@ -186,6 +186,8 @@ static void init_externals()
         sin(div(pi, integer(6)));
         asin(div(one, integer(2)));
         atan(one);
+        parse("x + pi*I + oo"); // the parser's table of constants is a function-local static
+        (void)symbol("x")->__str__();
         emptyset();
         universalset();
         reals();
